@@ -15,9 +15,24 @@ package match
 //@   loop 0 invariant dom: forall k string :: (k in acc) <==> seen(0)[k]
 //@   loop 0 invariant val: forall k string :: (k in acc) ==> acc[k] == bs[k]
 
+// jsonClass: the dynamic types a JSON round trip preserves up to number
+// coercion: what encoding/json and goja's Export produce. A value of a named
+// map type (match.Bindings, core.StepProps) is not in the class: the matcher
+// does not recognise it as a map until it has been through JSON.
+//@ spec jsonClass(v) = isnil(v) || is(v, bool) || is(v, string) || is(v, float64) || is(v, float32) || is(v, int64) || is(v, int32) || is(v, int) || is(v, []interface{}) || is(v, map[string]interface{})
+
+//@ func (Bindings).Extend returns r
+//@   safety C07
+//@   requires bs != nil
+//@   requires[C09] plain: jsonClass(v)
+//@   modifies bs
+//@   ensures r == bs && (p in bs) && bs[p] == v
+//@   ensures[C18] forall k string :: old(k in bs) && k != p ==> (k in bs) && bs[k] == old(bs[k])
+
 //@ func (Bindings).Extendm returns r, err
 //@   safety C07
 //@   requires bs != nil
+//@   requires[C09] plain: forall j int :: 0 <= j && j < len(pairs) && j % 2 == 1 ==> jsonClass(pairs[j])
 //@   modifies bs
 //@   ensures same: err == nil ==> r == bs
 //@   ensures noerr: len(pairs) % 2 == 0 && (forall j int :: 0 <= j && j < len(pairs) && j % 2 == 0 ==> is(pairs[j], string)) ==> err == nil
